@@ -7,7 +7,7 @@
 //@ item src/subrule.rs type BndPos
 //@ item src/subrule.rs type SetInd
 //@ item src/subrule.rs enum MatchElement
-//@ item src/subrule.rs impl SubRule members=get_contexts,get_exceptions,insertion_after,insertion_before,insertion_between,insertion_match,match_ipa_with_modifiers,input_match_ipa,input_match_syll_bound,match_before_env,match_after_env,insertion_match_exceptions,context_match,context_match_ipa,context_match_matrix,context_match_syll,context_match_structure,context_match_var,context_match_set,context_match_option,context_match_ellipsis
+//@ item src/subrule.rs impl SubRule members=get_contexts,get_exceptions,insertion_after,insertion_before,insertion_between,insertion_match,match_ipa_with_modifiers,input_match_ipa,input_match_syll_bound,input_match_item,input_match_var,input_match_matrix,input_match_set,input_match_syll,input_match_structure,input_match_ellipsis,match_before_env,match_after_env,insertion_match_exceptions,context_match,context_match_ipa,context_match_matrix,context_match_syll,context_match_structure,context_match_var,context_match_set,context_match_option,context_match_ellipsis
 //@ stub SegPos::reversed
 //@ stub SegPos::at_word_end
 //@ stub SegPos::increment
@@ -17,6 +17,12 @@
 //@ stub Word::get_seg_at
 //@ stub Word::seg_length_at
 //@ stub SubRule::match_ipa_with_modifiers
+//@ stub SubRule::input_match_var
+//@ stub SubRule::input_match_matrix
+//@ stub SubRule::input_match_set
+//@ stub SubRule::input_match_syll
+//@ stub SubRule::input_match_structure
+//@ stub SubRule::input_match_ellipsis
 //@ stub SubRule::get_contexts
 //@ stub SubRule::get_exceptions
 //@ stub SubRule::insertion_after
@@ -24,7 +30,6 @@
 //@ stub SubRule::insertion_between
 //@ stub SubRule::match_before_env
 //@ stub SubRule::match_after_env
-//@ stub SubRule::context_match_ipa
 //@ stub SubRule::context_match_matrix
 //@ stub SubRule::context_match_syll
 //@ stub SubRule::context_match_structure
@@ -44,7 +49,6 @@ pub uninterp spec fn wrev(w: Word) -> Word;                          // Word::re
 pub uninterp spec fn at_end(p: SegPos, w: Word) -> bool;             // SegPos::at_word_end
 pub uninterp spec fn bef_spec(sr: SubRule, states: Seq<Item>, w: Word, p: SegPos, ins: bool, is_context: bool) -> Result<bool, RuleRuntimeError>;
 pub uninterp spec fn aft_spec(sr: SubRule, states: Seq<Item>, w: Word, p: SegPos, ins: bool, inc: bool, is_context: bool) -> Result<bool, RuleRuntimeError>;
-pub uninterp spec fn ipa_spec(sr: SubRule, s: Segment, mods: Option<Modifiers>, w: Word, p: SegPos) -> Result<bool, RuleRuntimeError>;
 pub uninterp spec fn seg_at(w: Word, p: SegPos) -> Segment;               // Word::get_seg_at on an in-bounds position
 pub uninterp spec fn seglen(w: Word, p: SegPos) -> int;                  // Word::seg_length_at (run of identical segments)
 pub uninterp spec fn mods_spec(sr: SubRule, s: Segment, m: Modifiers, w: Word, p: SegPos) -> Result<bool, RuleRuntimeError>;
@@ -60,6 +64,13 @@ pub assume_specification<T>[ <[T]>::reverse ](s: &mut [T])
 impl PartialEq for ParseElement {
     #[verifier::external_body]
     fn eq(&self, other: &Self) -> (r: bool) ensures r == (*self == *other) { unimplemented!() }
+}
+/// a literal in an environment: nothing matches outside the word; inside, the bare segment must be equal, or the
+/// modifier matcher decides
+pub open spec fn ipa_spec(sr: SubRule, s: Segment, mods: Option<Modifiers>, w: Word, p: SegPos) -> Result<bool, RuleRuntimeError> {
+    if !pos_in_bounds(w, p) { Ok(false) } else {
+        match mods { Some(m) => mods_spec(sr, s, m, w, p), None => Ok(s == seg_at(w, p)) }
+    }
 }
 /// n steps of SegPos::increment
 pub open spec fn pinc_n(p: SegPos, w: Word, n: int) -> SegPos
@@ -121,7 +132,7 @@ pub open spec fn env_element_kind(k: ParseElement) -> bool {
 
 // =================================================================== context_match: the boundary arms and the literal arm
 //@ contract SubRule::context_match_ipa ret=r
-    ensures r == ipa_spec(*self, *s, *mods, *word, pos),
+    ensures /*#context_literal.outside_the_word_nothing_matches C03*/ r == ipa_spec(*self, *s, *mods, *word, pos),
 //@ end
 //@ contract SubRule::context_match ret=r
     requires *old(state_index) < states@.len(), env_element_kind(states@[*old(state_index) as int].kind),
@@ -171,7 +182,7 @@ pub open spec fn env_element_kind(k: ParseElement) -> bool {
         /*#input_literal.captures_the_position_iff_it_matched C03*/ r matches Ok(b) ==> (
             b == (match *mods { None => *s == seg_at(*word, *old(pos)), Some(m) => mods_spec(*self, *s, m, *word, *old(pos)) == Ok::<bool, RuleRuntimeError>(true) })
             && final(captures)@ == (if b { old(captures)@.push(MatchElement::Segment(*old(pos), None)) } else { old(captures)@ })),
-        /*#input_literal.steps_over_the_rest_of_a_long_segment C03*/ r is Ok ==> *final(pos) == pinc_n(*old(pos), *word, seglen(*word, *old(pos)) - 1),
+        /*#input_literal.steps_over_the_rest_of_a_long_segment C03*/ r is Ok ==> (*final(pos) == pinc_n(*old(pos), *word, seglen(*word, *old(pos)) - 1) && seglen(*word, *old(pos)) >= 1),
         r matches Err(e) ==> (*mods matches Some(m) && mods_spec(*self, *s, m, *word, *old(pos)) == Err::<bool, RuleRuntimeError>(e)),
 //@ end
 //@ loop_each_ghost_before SubRule::input_match_ipa while seg_length > (\d+)
@@ -186,4 +197,32 @@ pub open spec fn env_element_kind(k: ParseElement) -> bool {
 //@ contract SubRule::input_match_syll_bound ret=r
     ensures /*#input_boundary.matches_at_segment_index_zero C03*/ r == (pos.seg_index == 0),
         final(captures)@ == (if r { old(captures)@.push(MatchElement::SyllBound(pos.syll_index, None)) } else { old(captures)@ }),
+//@ end
+
+// =================================================================== input_match_item: one element of the rule's input
+//@ post
+/// the kinds an input element can have
+pub open spec fn input_element_kind(k: ParseElement) -> bool {
+    !(k is Optional) && !(k is Environment) && !(k is EmptySet) && !(k is WordBound) && !(k is Metathesis)
+}
+//@ end
+//@ contract SubRule::input_match_var ret=r
+    ensures *final(state_index) < usize::MAX,     // ASSUMED about the opaque matcher: the state index stays an index
+//@ end
+//@ contract SubRule::input_match_set ret=r
+    ensures *final(state_index) < usize::MAX,     // ASSUMED, as above
+//@ end
+//@ contract SubRule::input_match_item ret=r
+    requires *old(state_index) < states@.len(), input_element_kind(states@[*old(state_index) as int].kind),
+        // a literal is only tried on a position inside the word (input_match_at stops at the end of the word) -- unchecked at the call site
+        states@[*old(state_index) as int].kind is Ipa ==> pos_in_bounds(*word, *old(seg_pos)),
+    ensures
+        /*#input_item.boundary_matches_at_index_zero_and_consumes_nothing C03*/ states@[*old(state_index) as int].kind is SyllBound ==> (
+            r == Ok::<bool, RuleRuntimeError>(old(seg_pos).seg_index == 0) && *final(seg_pos) == *old(seg_pos)
+            && *final(state_index) == *old(state_index) + (if old(seg_pos).seg_index == 0 { 1int } else { 0int })
+            && final(captures)@ == (if old(seg_pos).seg_index == 0 { old(captures)@.push(MatchElement::SyllBound(old(seg_pos).syll_index, None)) } else { old(captures)@ })),
+        /*#input_item.literal_consumes_the_whole_long_segment_iff_matched C03*/ states@[*old(state_index) as int].kind is Ipa ==> (r matches Ok(b) ==> (
+            *final(state_index) == *old(state_index) + (if b { 1int } else { 0int })
+            && *final(seg_pos) == pinc_n(*old(seg_pos), *word, seglen(*word, *old(seg_pos)) - 1 + (if b { 1int } else { 0int }))
+            && final(captures)@ == (if b { old(captures)@.push(MatchElement::Segment(*old(seg_pos), None)) } else { old(captures)@ }))),
 //@ end
